@@ -185,6 +185,7 @@ type l2world struct {
 	lastMuts int
 	fltFired, lastFailed bool // storage-fault bookkeeping of the current statement
 	cacheMixed           bool // connections with an odd index get no node cache
+	twinKeys bool // the history holds numerically equal INTEGER and REAL keys (finding F-C07-2: their layers differ)
 	keyPos   int  // position of the key column in the declared column list (derived from the case header)
 	dead     bool // a Go panic crossed the cgo boundary: SQLite's mutex is held, the process state is unusable
 }
@@ -542,6 +543,17 @@ func (w *l2world) exec1(op *sop, stats map[string]int) bool {
 		return false
 	}
 	w.px.takeLog()
+	if !perWorldProxy {
+		// the order in which an open merges the versions it lists comes from math/rand's global source
+		// (kv.mergeRoots shuffles): seeded per operation, from the world and the operation's position,
+		// so that a history takes the same merge orders in every run (not in the threaded level, where
+		// worlds share the source)
+		h := int64(1469598103934665603)
+		for _, ch := range w.bucket {
+			h = (h ^ int64(ch)) * 1099511628211
+		}
+		rand.Seed(h + int64(w.nops)*7919)
+	}
 	switch op.kind {
 	case "conn":
 		db, err := sql.Open("sqlite3", ":memory:")
@@ -1087,7 +1099,105 @@ func (w *l2world) connInTx(c int) bool {
 	return cn != nil && cn.intx
 }
 
+// layoutCheck (C16): every version under current/ at the end of a history is well-formed ON ITS OWN at
+// node level — the invariant MInv2 of the Coq development (MastInvProofs / MastNeProofs), checked on
+// what the implementation stored: one more link than keys in every node, keys strictly increasing in
+// scan order, every entry on the level its key's layer names (entries of the root: at least the
+// height), children one level down, no linked node empty.  "" when every version passes.
+func (w *l2world) layoutCheck() string {
+	pfx := w.prefix + "/s3db-rows/"
+	get := func(key string) ([]byte, bool) {
+		obj, err := w.px.backend.GetObject(w.bucket, key, nil)
+		if err != nil {
+			return nil, false
+		}
+		defer obj.Contents.Close()
+		b, err := io.ReadAll(obj.Contents)
+		return b, err == nil
+	}
+	p := gofakes3.NewPrefix(aws.String(pfx+"root/current/"), nil)
+	ol, err := w.px.backend.ListBucket(w.bucket, &p, gofakes3.ListBucketPage{})
+	if err != nil {
+		return ""
+	}
+	for _, c := range ol.Contents {
+		b, ok := get(c.Key)
+		if !ok {
+			continue
+		}
+		var root struct {
+			Link         *string
+			Size         uint64
+			Height       uint8
+			BranchFactor uint
+		}
+		if json.Unmarshal(b, &root) != nil || root.Link == nil {
+			continue
+		}
+		count := uint64(0)
+		var last *s3db.Key
+		var walk func(link string, level int, isRoot bool) string
+		walk = func(link string, level int, isRoot bool) string {
+			nb, ok := get(pfx + "node/" + link)
+			if !ok {
+				return "" // (a missing node is the business of the reachability walk)
+			}
+			var n mast.Node
+			if err := s3db.VerifUnmarshalNode(nb, &n); err != nil {
+				return "undecodable-node"
+			}
+			if len(n.Link) == 0 {
+				n.Link = make([]interface{}, len(n.Key)+1)
+			}
+			if len(n.Link) != len(n.Key)+1 || len(n.Value) != len(n.Key) {
+				return fmt.Sprintf("node-with-%d-keys-%d-values-%d-links", len(n.Key), len(n.Value), len(n.Link))
+			}
+			if !isRoot && len(n.Key) == 0 && n.Link[0] == nil {
+				return "empty-node-linked"
+			}
+			for i, l := range n.Link {
+				if l != nil {
+					if level == 0 {
+						return "child-below-level-0"
+					}
+					if r := walk(l.(string), level-1, false); r != "" {
+						return r
+					}
+				}
+				if i < len(n.Key) {
+					k := n.Key[i].(*s3db.Key)
+					if last != nil && last.Order(k) >= 0 {
+						return "keys-not-increasing"
+					}
+					last = k
+					count++
+					lay := int(k.Layer(root.BranchFactor))
+					if isRoot && lay < level {
+						return fmt.Sprintf("root-entry-of-layer-%d-in-a-tree-of-height-%d", lay, level)
+					}
+					if !isRoot && lay != level {
+						return fmt.Sprintf("entry-of-layer-%d-on-level-%d", lay, level)
+					}
+				}
+			}
+			return ""
+		}
+		if r := walk(*root.Link, int(root.Height), true); r != "" {
+			return r
+		}
+		// (the entry count of the version object is not compared: after a rolled-back or failed INSERT on a
+		//  tree of several levels it is off by the phantom row of finding F-C05-1)
+		_ = count
+	}
+	return ""
+}
+
 func (w *l2world) finish() (string, string) {
+	if !w.dead && !w.twinKeys {
+		if r := w.layoutCheck(); r != "" {
+			w.out.s("; LAYOUT-VIOLATION:" + r)
+		}
+	}
 	w.close()
 	w.in.i(w.ncols)
 	w.in.i(w.epn)
@@ -1481,6 +1591,26 @@ func runL2History(g *gen, prof l2profile, nops int, stats map[string]int) (strin
 				stats["script_changes_shared_member"]++
 			}
 		}
+	}
+	if prof.faults && prof.tx && g.x().Intn(2) == 0 {
+		// a COMMIT whose FIRST upload fails: the statement reports the failure, the transaction is over
+		// (SQLite rolls it back), the rows visible are those before BEGIN, and the connection goes on
+		// with a transaction that commits
+		k1, k2 := sval{tag: 'I', i: 1500}, sval{tag: 'I', i: 1501}
+		doq(&sop{kind: "wt", c: 0, t: tick()})
+		doq(&sop{kind: "ins", c: 0, key: k1, vals: ivals(1)})
+		doq(&sop{kind: "begin", c: 0})
+		doq(&sop{kind: "wt", c: 0, t: tick()})
+		doq(&sop{kind: "ins", c: 0, key: k2, vals: ivals(2)})
+		doq(&sop{kind: "upd", c: 0, key: k1, vals: ivals(3), mask: fullm})
+		w.exec(&sop{kind: "commit", c: 0, nofault: true, flt: &l2fault{on: "P", k: 0}}, stats)
+		doq(&sop{kind: "sel", c: 0})
+		doq(&sop{kind: "begin", c: 0})
+		doq(&sop{kind: "wt", c: 0, t: tick()})
+		doq(&sop{kind: "ins", c: 0, key: k2, vals: ivals(4)})
+		doq(&sop{kind: "commit", c: 0})
+		doq(&sop{kind: "sel", c: 0})
+		stats["script_failed_commit_rolls_back"]++
 	}
 	if prof.native && epn == 0 && g.x().Intn(3) == 0 {
 		// descending scans with a LIMIT whose upper bound lies BETWEEN stored keys (the cursor starts
